@@ -2,6 +2,7 @@ package cpgen
 
 import (
 	"encoding/binary"
+	"hash/crc32"
 	"fmt"
 	"strings"
 	"time"
@@ -121,7 +122,18 @@ func (r *Resp) Encode(ver int16) ([]byte, error) {
 		}
 	}
 	if r.Victim == nil {
-		return sarama.VerifEncode(mk(set))
+		out, err := sarama.VerifEncode(mk(set))
+		if err != nil {
+			return nil, err
+		}
+		if as, any := r.attrs(); any {
+			hdr, err := sarama.VerifEncode(mk(nil))
+			if err != nil {
+				return nil, err
+			}
+			patchReserved(out, len(hdr), as)
+		}
+		return out, nil
 	}
 	// three encodings with the real encoder: without records (header length), without and with the victim
 	hdr, err := sarama.VerifEncode(mk(nil))
@@ -136,6 +148,9 @@ func (r *Resp) Encode(ver int16) ([]byte, error) {
 	full, err := sarama.VerifEncode(mk(set2))
 	if err != nil {
 		return nil, err
+	}
+	if as, any := r.attrs(); any {
+		patchReserved(full, len(hdr), as)
 	}
 	base, err := sarama.VerifEncode(mk(set))
 	if err != nil {
@@ -200,4 +215,31 @@ func Answer(res sarama.VerifParseResult) string {
 		sb.WriteString(" " + msgText(m.Offset, m.Key, m.Value, m.Headers, m.TsMilli))
 	}
 	return sb.String()
+}
+
+var castagnoli = crc32.MakeTable(crc32.Castagnoli)
+
+// patchReserved sets reserved attribute bits on the wire: buf holds an encoded FetchResponse whose records section
+// starts at recStart and consists of the units in order (legacy message: offset(8) size(4) ...; v2 batch:
+// baseOffset(8) batchLength(4) leaderEpoch(4) magic(1) crc(4) attributes(2) ...).  For every batch i with
+// bits[i] != 0 the bits are ORed into the attributes field and the batch CRC (CRC-32C over attributes..end of
+// batch) is recomputed - what a broker that uses those bits sends.  The real encoder cannot produce them.
+func patchReserved(buf []byte, recStart int, bits []uint16) {
+	p := recStart
+	for _, b := range bits {
+		if p+12 > len(buf) {
+			return
+		}
+		size := int(binary.BigEndian.Uint32(buf[p+8:]))
+		end := p + 12 + size
+		if end > len(buf) {
+			return
+		}
+		if b != 0 && size >= 49 && buf[p+16] == 2 {
+			a := binary.BigEndian.Uint16(buf[p+21:]) | b
+			binary.BigEndian.PutUint16(buf[p+21:], a)
+			binary.BigEndian.PutUint32(buf[p+17:], crc32.Checksum(buf[p+21:end], castagnoli))
+		}
+		p = end
+	}
 }
